@@ -95,7 +95,7 @@ def features(recipe):
 # ------------------------------------------------------------------------------------------ generator
 class Gen:
     def __init__(self, rng, version=6, mode="app", allow_subs=True, allow_loops=True, allow_abi=True, allow_itxn=True,
-                 nonlocal_in_operand=False, size=1.0):
+                 nonlocal_in_operand=False, size=1.0, min_subs=0, rec_p=.45, call_bias=0.0):
         self.rng = rng
         self.v = version
         self.mode = mode
@@ -109,6 +109,9 @@ class Gen:
         self.nonlocal_in_operand = nonlocal_in_operand
         self.size = size
         self.counter_n = 0
+        self.min_subs = min_subs
+        self.rec_p = rec_p
+        self.call_bias = call_bias
 
     # ---------------------------------------------------------------- leaves
     def small(self):
@@ -177,6 +180,10 @@ class Gen:
     # ---------------------------------------------------------------- expressions
     def u(self, d, sc):
         rng = self.rng
+        if d > 0 and self.call_bias and rng.random() < self.call_bias:
+            c = self.call_expr("u", d - 1, sc)
+            if c is not None:
+                return c
         k = rng.random()
         if d <= 0 or k < .3:
             c = rng.random()
@@ -254,6 +261,10 @@ class Gen:
 
     def b(self, d, sc):
         rng = self.rng
+        if d > 0 and self.call_bias and rng.random() < self.call_bias:
+            c = self.call_expr("b", d - 1, sc)
+            if c is not None:
+                return c
         k = rng.random()
         if d <= 0 or k < .35:
             c = rng.random()
@@ -636,10 +647,12 @@ class Gen:
     def program(self):
         rng = self.rng
         nsubs = rng.choice([0, 0, 1, 2, 3, 4]) if self.allow_subs else 0
+        if self.allow_subs and nsubs < self.min_subs:
+            nsubs = rng.choice([1, 2, 2, 3, 4])
         self.subs = []
         self.subs_meta = []
         for k in range(nsubs):
-            rec = rng.random() < .45
+            rec = rng.random() < self.rec_p
             m = self.make_sub(k, rec)
             self.subs.append(m)
             self.subs_meta.append(m)
